@@ -10,6 +10,7 @@ mod zcq;
 mod avg;
 mod arc;
 mod logq;
+mod multi;
 
 use std::io::{BufRead, Write};
 
@@ -36,6 +37,7 @@ fn main() {
             "avg" => avg::run(&case),
             "arc" => arc::run(&case),
             "log" => logq::run(&case),
+            "multi" => multi::run(&case),
             other  => panic!("unknown case kind '{other}'"),
         };
         let text: Vec<String> = trace.iter().map(|v| v.to_string()).collect();
